@@ -56,7 +56,11 @@ def fixtures():
         os.mkdir(os.path.join(d, "sub"))
         files = {"data.txt": b"plain <x9 y9=1> text &amp; \"q\"\n", "part.md": b"# part <x9>\n\n[a](javascript:x) *em*\n\n```{include} data.txt\n```\n",
                  "frag.html": b"<div onclick=x9()>frag</div>\n", "latin1.txt": b"caf\xe9 <x9>\n", "empty.txt": b"", "bom.md": b"\xef\xbb\xbf# bom\n",
-                 "utf16.txt": "text <x9>".encode("utf-16"), os.path.join("sub", "inner.md"): b".. include:: ../data.txt\n\n```{include} ../part.md\n```\n"}
+                 "utf16.txt": "text <x9>".encode("utf-16"), os.path.join("sub", "inner.md"): b".. include:: ../data.txt\n\n```{include} ../part.md\n```\n",
+                 # containers at the nesting limit, lists, definitions and footnotes of their own, other line endings, mutual inclusion
+                 "deep.md": b"> > > > > > deep\n\n- a\n  - b\n    1. c\n\n[inc]: /from-include\n",
+                 "crlf.md": b"# T\r\n\r\nhello\r\nworld\r\n\r\n- a\r\n- b\r\n\r\n```\r\ncode\r\n```\r\n", "cr.md": b"# T\r\rhello\r- a\r",
+                 "cyc_a.md": b"a\n\n.. include:: cyc_b.md\n\n```{include} cyc_b.md\n```\n", "cyc_b.md": b"b\n\n.. include:: cyc_a.md\n\n```{include} cyc_a.md\n```\n"}
         for name, data in files.items():
             with open(os.path.join(d, name), "wb") as f:
                 f.write(data)
